@@ -90,7 +90,7 @@ pub fn expected(union_lg_k: u8, fed: &[&CpcModel]) -> (u8, Vec<u64>) {
     (lg, rows)
 }
 
-pub fn check_result(u: &CpcUnion, lg: u8, rows: &[u64], ctx: &str) -> Result<CpcSketch, Fail> {
+pub fn check_result(u: &CpcUnion, lg: u8, rows: &[u64], seed: u64, ctx: &str) -> Result<CpcSketch, Fail> {
     ensure!(u.lg_k() == lg, "C06.lg_k", "{ctx}: union lg_k {} expected {}", u.lg_k(), lg);
     let pop: u64 = rows.iter().map(|r| r.count_ones() as u64).sum();
     ensure!(u.num_coupons() as u64 == pop, "C06.union_num_coupons", "{ctx}: union num_coupons {} expected {}", u.num_coupons(), pop);
@@ -132,6 +132,21 @@ pub fn check_result(u: &CpcUnion, lg: u8, rows: &[u64], ctx: &str) -> Result<Cpc
     // the image carries no HIP section and round-trips
     let img = r.serialize();
     ensure!(img[5] & (1 << 2) == 0, "C06.image_has_hip_flag", "{ctx}: merged sketch image has the HIP flag set");
+    // the result belongs to the union's seed: its image carries that seed's hash, reads back under that seed,
+    // and it can be fed to another union of that seed
+    if pop > 0 {
+        let sh = u16::from_le_bytes([img[6], img[7]]);
+        ensure!(sh == crate::kit::refhash::seed_hash(seed), "C06.result_seed", "{ctx}: result image carries seed hash {sh}, the union's seed {seed:#x} has {}", crate::kit::refhash::seed_hash(seed));
+    }
+    let back = CpcSketch::deserialize_with_seed(&img, seed).map_err(|e| Fail { clause: "C06.result_seed".into(), detail: format!("{ctx}: result image rejected under the union's seed: {e}") })?;
+    ensure!(back.num_coupons() as u64 == pop, "C06.result_roundtrip", "{ctx}: result read back with {} coupons, expected {pop}", back.num_coupons());
+    let fed = crate::kit::runner::guard(|| {
+        let mut u3 = CpcUnion::with_seed(lg, seed);
+        u3.update(&r);
+        Ok(u3.num_coupons())
+    })
+    .map_err(|f| Fail { clause: "C06.result_seed".into(), detail: format!("{ctx}: the result cannot be fed to a union of the same seed: {}", f.detail) })?;
+    ensure!(fed as u64 == pop, "C06.result_refeed", "{ctx}: a second union fed with the result holds {fed} coupons, expected {pop}");
     Ok(r)
 }
 
@@ -143,7 +158,7 @@ pub fn run_case(c: &Case, info: &mut CaseInfo) -> Result<(), Fail> {
     let mut u = CpcUnion::with_seed(c.union_lg_k, c.seed);
     let mut fed: Vec<usize> = vec![];
     let (lg, rows) = expected(c.union_lg_k, &[]);
-    check_result(&u, lg, &rows, "empty union")?;
+    check_result(&u, lg, &rows, c.seed, "empty union")?;
     let mut shapes = BTreeSet::new();
     let mut windowed = false;
     for (si, f) in c.feeds.iter().enumerate() {
@@ -157,7 +172,7 @@ pub fn run_case(c: &Case, info: &mut CaseInfo) -> Result<(), Fail> {
         let (lg, rows) = expected(c.union_lg_k, &models);
         let fl = flavor(built[j].model.lg_k, built[j].model.c);
         let ctx = format!("after feed #{si} (input {j}: lg_k {} flavor {} roundtrip {})", built[j].model.lg_k, fl, c.inputs[j].roundtrip);
-        let r = check_result(&u, lg, &rows, &ctx)?;
+        let r = check_result(&u, lg, &rows, c.seed, &ctx)?;
         // to_sketch must not disturb the union
         let r2 = u.to_sketch();
         ensure!(r2.verif_bit_matrix() == r.verif_bit_matrix(), "C06.to_sketch_mutates", "{ctx}: a second to_sketch differs");
@@ -184,7 +199,7 @@ pub fn run_case(c: &Case, info: &mut CaseInfo) -> Result<(), Fail> {
         }
         let models: Vec<&CpcModel> = fed.iter().map(|&j| &built[j].model).collect();
         let (lg, rows) = expected(c.union_lg_k, &models);
-        check_result(&u2, lg, &rows, "permuted + repeated replay")?;
+        check_result(&u2, lg, &rows, c.seed, "permuted + repeated replay")?;
     }
     info.nontrivial = shapes.len() >= 2 && windowed;
     if windowed {
